@@ -89,4 +89,42 @@ unsigned long good_r8_div(unsigned long len, unsigned long groupSize)
     return len + len / groupSize;
 }
 
+
+// ---- R9: a pointer is dereferenced on a path on which a test has just established that it is null
+struct R9Node { R9Node* parent; int kind; int match(const R9Node* n) const { return n->kind; } };
+
+int bad_r9_precedence(const R9Node* pos, const R9Node* from)
+{
+    const R9Node* next = pos->parent;
+    if (0 != next && next->kind == 9 || (0 != from && from->match(next) != 0))     // (a && b) || c : c runs with next == 0
+        return 1;
+    return 0;
+}
+
+int good_r9_precedence(const R9Node* pos, const R9Node* from)
+{
+    const R9Node* next = pos->parent;
+    if (0 != next && (next->kind == 9 || (0 != from && from->match(next) != 0)))
+        return 1;
+    return 0;
+}
+
+int good_r9_correlated(const R9Node* lhs, const R9Node* rhs)
+{
+    if (lhs == 0 && rhs != 0)
+        return 1;
+    else if (rhs == 0)
+        return 0;
+    return lhs->kind < rhs->kind;      // lhs == 0 implies rhs == 0 here, which returned above
+}
+
+int good_r9_flag(R9Node* context)
+{
+    int score = 1;
+    if (0 == context)
+        score = 0;
+    if (score == 0)
+        return 0;
+    return context->kind;
+}
 }
